@@ -34,3 +34,16 @@ Example C16_example :
             returned nat (main_out nat c) = true /\ passes nat (main_out nat c) = [4; 5]%nat /\ writes nat (writer_out nat c) = [4; 5]%nat.
 Proof. eexists. split; [vm_compute; reflexivity|]. repeat split. Qed.
 
+
+(* In bytes: whatever blocks the reads cut the input into, the bytes passed through and the bytes
+   recorded are the input. *)
+Theorem C16_bytes : forall (B : Type) lat cap (blocks : list (list B)) c, (1 <= cap)%nat ->
+  reachable _ _ _ (prog (list B) lat true waits_rtcmlogger) sender receiver (MDone (list B)) (init (list B) cap blocks) c ->
+  returned (list B) (main_out (list B) c) = true ->
+  concat (passes (list B) (main_out (list B) c)) = concat blocks /\
+  concat (writes (list B) (writer_out (list B) c)) = concat blocks.
+Proof.
+  intros B lat cap blocks c Hc Hr Hret.
+  destruct (C16_logger (list B) lat cap blocks c Hc Hr Hret) as [A1 A2]. rewrite A1, A2. split; reflexivity.
+Qed.
+Print Assumptions C16_bytes.
